@@ -328,12 +328,17 @@ def units_rule(repo, res, rule="UNITS"):
             res.undecided(rule, f"{rule}:{q}", "function not found")
             continue
         envs = A.collect_envs(fn)
-        ms = [n for n in A.walk(fn.body) if n["k"] == "Macro" and P.last(n["name"]) == "format"]
+        from vlib import templates as TM
+        ms = [s for s in TM.fmt_sites(fn, envs) if s.macro == "format"]
         ok = len(ms) == 1
         if ok:
-            args = ms[0]["args"]
-            a = [A.resolve(x, envs.get(id(x)) or A.fn_env(fn)) for x in args[1:]]
-            ok = len(a) >= 3 and a[0][0] == "param" and a[1][0] == "field" and a[1][2] == "line" and a[2][0] == "field" and a[2][2] == "column_start" and args[0].get("v", "").startswith("{}:{}:{}")
+            s = ms[0]
+            # template `<h0>:<h1>:<h2>...` with holes path, span.line, span.column_start (positional or captured by name)
+            shape = [(p[0], p[1] if p[0] == "lit" else None) for p in s.pieces[:5]]
+            ok = len(s.holes) >= 3 and [k for k, _ in shape] == ["hole", "lit", "hole", "lit", "hole"] and shape[1][1] == ":" and shape[3][1] == ":"
+            if ok:
+                a = [A.resolve(h[2], envs.get(id(h[2])) or s.env or A.fn_env(fn)) for h in s.holes[:3]]
+                ok = a[0][0] == "param" and a[1][0] == "field" and a[1][2] == "line" and a[2][0] == "field" and a[2][2] == "column_start"
         res.check(ok, rule, f"{rule}:{q}", "prefix is path:line:column_start (1-based)", fn.loc())
     # accessors
     for name, fld in (("line_machine", "line"), ("column_start_machine", "column_start"), ("column_end_machine", "column_end")):
